@@ -42,12 +42,20 @@ def AllocShape (E : Nat) (a a' : Arena) (p sz : Nat) : Prop :=
       (∀ h ∈ a.chunks, Disj c.data c.size h.data h.size) ∧ Disj c.data c.size E FOOTER_SIZE ∧
       c.ab = a.allocatedBytes E + usable c)
 
+/-- which fast-path call produced the block: on the arena as it was, or on the arena with the
+fresh chunk `c` (finger at its footer) pushed -/
+def AllocVia (E : Nat) (a a' : Arena) (p sz al : Nat) : Prop :=
+  tryFast E a sz al = .ok (some (a', p)) ∨
+  (∃ c, c.ptr = c.footer ∧ a'.chunks = { c with ptr := p } :: a.chunks ∧
+     tryFast E { a with chunks := c :: a.chunks } sz al = .ok (some (a', p)))
+
 /-- postcondition of the allocation entry points -/
 structure AllocPost (E : Nat) (s s' : St) (sz al : Nat) (o : Outcome Nat) : Prop where
   nobad : ∀ w, o ≠ .bad w
   mem_eq : s'.mem = s.mem
   m_eq : s'.a.M = s.a.M
   lim_eq : s'.a.limit = s.a.limit
+  via : ∀ p, o = .ok p → AllocVia E s.a s'.a p sz al
   ok : ∀ p, o = .ok p → ArenaWF E s'.a ∧ al ∣ p ∧ s.a.M ∣ p ∧ 0 < p ∧ AllocShape E s.a s'.a p sz ∧
       ∃ refs, AllRefused refs ∧
         (s'.evs = s.evs ++ refs ∧ s'.a.chunks.length = s.a.chunks.length ∨
@@ -124,11 +132,11 @@ theorem allocSlow_spec {E sz al} (s : St) (hE : EnvOK E) (h : ArenaWF E s.a) (hA
   rcases hc with ⟨ho, refs, hev, hrf⟩ | ho | ⟨c, d, n0, refs, ho, hd, hfc, hfit, hrf, hev⟩
   · subst ho
     simp only [bindO]
-    exact ⟨⟨(by intro w; simp), hm, (by rw [ha]), (by rw [ha]), (by intro p hp; cases hp),
+    exact ⟨⟨(by intro w; simp), hm, (by rw [ha]), (by rw [ha]), (by intro p hp; cases hp), (by intro p hp; cases hp),
       fun _ => ⟨ha, refs, hrf, hev⟩⟩, by simp⟩
   · subst ho
     simp only [bindO]
-    exact ⟨⟨(by intro w; simp), hm, (by rw [ha]), (by rw [ha]), (by intro p hp; cases hp),
+    exact ⟨⟨(by intro w; simp), hm, (by rw [ha]), (by rw [ha]), (by intro p hp; cases hp), (by intro p hp; cases hp),
       (by intro hh; rcases hh with hh | hh <;> cases hh)⟩, by simp⟩
   · subst ho
     simp only [bindO, pureO]
@@ -164,7 +172,10 @@ theorem allocSlow_spec {E sz al} (s : St) (hE : EnvOK E) (h : ArenaWF E s.a) (hA
       · simp at hnil
       · simp only [List.cons.injEq] at hc0
         obtain ⟨rfl, rfl⟩ := hc0
-        refine ⟨⟨(by intro w; simp), hm, eff.m_eq, eff.lim_eq, ?_, (by intro hh; rcases hh with hh | hh <;> cases hh)⟩, by simp⟩
+        refine ⟨⟨(by intro w; simp), hm, eff.m_eq, eff.lim_eq, ?_, ?_, (by intro hh; rcases hh with hh | hh <;> cases hh)⟩, by simp⟩
+        · intro q hq
+          cases hq
+          exact Or.inr ⟨c, hfc.ptr_eq, hc0', htf⟩
         intro q hq
         cases hq
         refine ⟨hwf'', eff.al_dvd, eff.m_dvd, eff.nz, Or.inr (Or.inr ⟨c, hc0', hge, by rw [← hfc.ptr_eq]; exact hle,
@@ -199,7 +210,10 @@ theorem tryAllocLayout_spec {E sz al} (s : St) (hE : EnvOK E) (h : ArenaWF E s.a
     exact allocSlow_spec s hE h hA hlay
   · rw [htf]
     simp only [pureO, bindO]
-    refine ⟨⟨(by intro w; simp), rfl, eff.m_eq, eff.lim_eq, ?_, (by intro hh; rcases hh with hh | hh <;> cases hh)⟩, by simp⟩
+    refine ⟨⟨(by intro w; simp), rfl, eff.m_eq, eff.lim_eq, ?_, ?_, (by intro hh; rcases hh with hh | hh <;> cases hh)⟩, by simp⟩
+    · intro q hq
+      cases hq
+      exact Or.inl htf
     intro q hq
     cases hq
     refine ⟨hwf', eff.al_dvd, eff.m_dvd, eff.nz, ?_, [], AllRefused.nil, Or.inl ⟨by simp, ?_⟩⟩
@@ -233,8 +247,9 @@ theorem allocLayout_spec {E sz al} (s : St) (hE : EnvOK E) (h : ArenaWF E s.a) (
   obtain ⟨sp, hnp⟩ := tryAllocLayout_spec s hE h hA hlay
   obtain ⟨e1, e2, e3, e4, e5, e6⟩ := allocLayout_eq (E := E) (sz := sz) (al := al) s
   rw [e2]
-  refine ⟨?_, sp.mem_eq, sp.m_eq, sp.lim_eq, ?_, ?_⟩
+  refine ⟨?_, sp.mem_eq, sp.m_eq, sp.lim_eq, ?_, ?_, ?_⟩
   · intro w hw; exact sp.nobad w ((e5 w).mp hw)
+  · intro p hp; exact sp.via p ((e3 p).mp hp)
   · intro p hp; exact sp.ok p ((e3 p).mp hp)
   · intro hh
     rcases hh with hh | hh
